@@ -233,6 +233,76 @@ func dumpGraph(g *symboldg.SymbolGraph, n int) gDump {
 			if !sameMultiset(pa, paU) {
 				d.Err += fmt.Sprintf("parents sorted/unsorted differ on %d;", b)
 			}
+			// filtered traversals (node kinds, a filter function, edge kinds), sorted and unsorted: each must be the
+			// unfiltered answer restricted by the same predicate ON THE RETURNED NODE / THE TRAVERSED EDGE
+			kindOf := map[int]common.SymKind{}
+			for _, c := range g.Children(nd, nil) {
+				kindOf[baseOf(c.Id)] = c.Kind
+			}
+			for _, c := range g.Parents(nd, nil) {
+				kindOf[baseOf(c.Id)] = c.Kind
+			}
+			restrict := func(all []int, keep func(int) bool) []int {
+				o := []int{}
+				for _, x := range all {
+					if keep(x) {
+						o = append(o, x)
+					}
+				}
+				return o
+			}
+			basesOf := func(ns []*symboldg.SymbolNode) []int {
+				o := []int{}
+				for _, c := range ns {
+					o = append(o, baseOf(c.Id))
+				}
+				return o
+			}
+			for _, srt := range []symboldg.TraversalResultSorting{symboldg.TraversalSortingOrdinalAsc, 0} {
+				for _, k := range allNodeKinds {
+					k := k
+					beh := &symboldg.TraversalBehavior{Sorting: srt, Filtering: symboldg.TraversalFilter{NodeKinds: []common.SymKind{k}}}
+					if !sameMultiset(basesOf(g.Children(nd, beh)), restrict(ch, func(x int) bool { return kindOf[x] == k })) {
+						d.Err += fmt.Sprintf("children filtered by node kind %s differ on %d;", k, b)
+					}
+					if !sameMultiset(basesOf(g.Parents(nd, beh)), restrict(pa, func(x int) bool { return kindOf[x] == k })) {
+						d.Err += fmt.Sprintf("parents filtered by node kind %s differ on %d;", k, b)
+					}
+				}
+				for _, skip := range bases {
+					skip := skip
+					beh := &symboldg.TraversalBehavior{Sorting: srt, Filtering: symboldg.TraversalFilter{FilterFunc: func(n *symboldg.SymbolNode) bool { return baseOf(n.Id) != skip }}}
+					if !sameMultiset(basesOf(g.Children(nd, beh)), restrict(ch, func(x int) bool { return x != skip })) {
+						d.Err += fmt.Sprintf("children filtered by function (not %d) differ on %d;", skip, b)
+					}
+					if !sameMultiset(basesOf(g.Parents(nd, beh)), restrict(pa, func(x int) bool { return x != skip })) {
+						d.Err += fmt.Sprintf("parents filtered by function (not %d) differ on %d;", skip, b)
+					}
+				}
+				ekinds := map[string]bool{}
+				for _, e := range es {
+					ekinds[e.k] = true
+				}
+				for ek := range ekinds {
+					beh := &symboldg.TraversalBehavior{Sorting: srt, Filtering: symboldg.TraversalFilter{EdgeKinds: []symboldg.SymbolEdgeKind{symboldg.SymbolEdgeKind(ek)}}}
+					wantC, wantP := []int{}, []int{}
+					for _, e := range es {
+						if e.k == ek && e.f == b && g.Get(mkKey(gKey{e.t, 1})) != nil {
+							wantC = append(wantC, e.t)
+						}
+						if e.k == ek && e.t == b && g.Get(mkKey(gKey{e.f, 1})) != nil {
+							wantP = append(wantP, e.f)
+						}
+					}
+					// as SETS: a parent recorded under two file versions is listed once per version and edge
+					if !sameSet(basesOf(g.Children(nd, beh)), wantC) {
+						d.Err += fmt.Sprintf("children filtered by edge kind %s differ on %d;", ek, b)
+					}
+					if !sameSet(basesOf(g.Parents(nd, beh)), wantP) {
+						d.Err += fmt.Sprintf("parents filtered by edge kind %s differ on %d (got %v want %v);", ek, b, basesOf(g.Parents(nd, beh)), wantP)
+					}
+				}
+			}
 			ds := []int{}
 			for _, c := range g.Descendants(nd, nil) {
 				ds = append(ds, baseOf(c.Id))
@@ -242,6 +312,28 @@ func dumpGraph(g *symboldg.SymbolGraph, n int) gDump {
 		}
 	}
 	return d
+}
+
+func sameSet(a, b []int) bool {
+	in := func(x int, l []int) bool {
+		for _, y := range l {
+			if x == y {
+				return true
+			}
+		}
+		return false
+	}
+	for _, x := range a {
+		if !in(x, b) {
+			return false
+		}
+	}
+	for _, x := range b {
+		if !in(x, a) {
+			return false
+		}
+	}
+	return true
 }
 
 func sameMultiset(a, b []int) bool {
